@@ -322,9 +322,13 @@ def closureApplyName (env : Name) : Name := inherentMethodFnName (.tstruct env) 
 
 /-! ### Go backend (`go/compile.rs`, `go/runtime.rs`) -/
 
-/-- `variant_struct_name`; `enums` = every enum of the environment with its variant names -/
-def variantStructName (enums : List (Name × List Name)) (enumName variant : Name) : Name :=
-  if (enums.filter fun e => e.2.contains variant).length > 1 then goIdent enumName ++ ['_'] ++ goIdent variant
+/-- `variant_struct_name`; `enums` = every enum of the environment with its variant names,
+`structs` = every struct name.  The bare variant name is used only when no other enum has a
+variant of that name and no enum or struct type is spelled like it. -/
+def variantStructName (enums : List (Name × List Name)) (structs : List Name) (enumName variant : Name) : Name :=
+  if (enums.filter fun e => e.2.contains variant).length > 1 || enums.any (fun e => e.1 == variant) ||
+      structs.contains variant then
+    goIdent enumName ++ ['_'] ++ goIdent variant
   else goIdent variant
 
 def dynVtableStructName (tr : Name) : Name := goIdent ("dyn__".toList ++ tr ++ "_vtable".toList)
